@@ -282,6 +282,9 @@ func (w *World) resolve(store string, row *Row, path string) (vals []val, isSet 
 			}
 			return vals, true, info.Type, true
 		}
+		if info.NotNil && row.V[parts[0]] == nil {
+			return []val{{v: ""}}, false, info.Type, true
+		}
 		return []val{mkVal(row.V[parts[0]])}, false, info.Type, true
 	}
 	if info.Target == "" {
